@@ -577,7 +577,7 @@ class SymbolValue(Value):
             return AddressValue(symbol.int)
 
         if symbol.is_numeric():
-            return NumericValue(symbol.int)
+            return NumericValue(-symbol.int if symbol.is_negative() else symbol.int)
 
         raise ValueError("[{}] does not have a value that can be used here".format(self.value))
 
@@ -662,8 +662,8 @@ class ExpressionValue(Value):
             mode = ExplicitAddressingMode.EXTENDED
 
         if self.right.is_numeric() and self.left.is_numeric():
-            left = self.left.int
-            right = self.right.int
+            left = -self.left.int if self.left.is_negative() else self.left.int
+            right = -self.right.int if self.right.is_negative() else self.right.int
 
             if self.operation == "+":
                 self.value = NumericValue("{}".format(left + right), mode=mode)
